@@ -78,7 +78,7 @@ func (fv *FV) freshValue(t types.Type, base string) Value {
 	switch k {
 	case kSlice:
 		v := Value{K: kSlice, Type: t, T: fv.s.freshConst(base+".arr", sRef), Off: fv.s.freshConst(base+".off", sInt), Len: fv.s.freshConst(base+".len", sInt), Cap: fv.s.freshConst(base+".cap", sInt)}
-		fv.s.assume(and(le(intLit(0), v.Off), le(intLit(0), v.Len), le(v.Len, v.Cap)))
+		fv.s.assume(and(le(intLit(0), v.Off), le(intLit(0), v.Len), le(v.Len, v.Cap), le(v.Cap, Term{"9223372036854775807", sInt})))
 		return v
 	case kTuple:
 		tup := t.(*types.Tuple)
@@ -285,7 +285,7 @@ func (fv *FV) loadCell(e *Env, comp string, t types.Type, sortHint string, idx .
 			Len: fv.loadComp(e, comp+"#len", sInt, idx...),
 			Cap: fv.loadComp(e, comp+"#cap", sInt, idx...)}
 		if fv.spec == nil {
-			fv.assume(e, and(le(intLit(0), v.Off), le(intLit(0), v.Len), le(v.Len, v.Cap)))
+			fv.assume(e, and(le(intLit(0), v.Off), le(intLit(0), v.Len), le(v.Len, v.Cap), le(v.Cap, Term{"9223372036854775807", sInt})))
 		}
 		return v
 	}
